@@ -387,7 +387,7 @@ type FuncResult struct {
 
 func (e *Engine) newCtx(fn *ssa.Function) *Ctx {
 	return &Ctx{eng: e, declSeen: map[string]bool{}, counter: map[string]int{}, strLits: map[string]Term{}, assumed: map[string]bool{},
-		externs: map[string]bool{}, inlined: map[string]bool{}, writes: map[string]bool{}, nonFresh: map[string]bool{}, freshRefs: map[string]bool{}, fn: fn, oblCount: map[string]int{}}
+		externs: map[string]bool{}, inlined: map[string]bool{}, writes: map[string]bool{}, nonFresh: map[string]bool{}, freshRefs: map[string]bool{}, writeBases: map[string]map[string]Term{}, defined: map[string]bool{}, volatile: map[string]bool{}, fn: fn, oblCount: map[string]int{}}
 }
 
 func (e *Engine) verifyFunction(key string) (res *FuncResult) {
@@ -485,6 +485,7 @@ func (e *Engine) verifyFunction(key string) (res *FuncResult) {
 	for i, r := range f.rets {
 		retConds = append(retConds, r.cond)
 		penv := f.baseEnv(r.heap)
+		penv.at = r.blk
 		bindResults(penv, f, ct, fn.Signature, r.vals)
 		for _, l := range deferred {
 			penv.vars[l.Name] = penv.eval(l.E)
